@@ -493,8 +493,8 @@ Definition tid_del (t : tid) (l : list tid) : list tid := filter (fun u => negb 
 Definition cs_step (s : cs_state) (l : label) : cs_state * bool :=
   match l with
   | LCall t => ({| cs_ticket := filter (fun p => negb (Nat.eqb (fst p) t)) (cs_ticket s); cs_in := tid_del t (cs_in s) |}, true)
-  | LAtom t SC AAdd _ ret => ({| cs_ticket := assoc_set t ret (cs_ticket s); cs_in := cs_in s |}, true)
-  | LAtom t SY ALoad _ ret =>
+  | LAtom t SC AAdd _ ret _ => ({| cs_ticket := assoc_set t ret (cs_ticket s); cs_in := cs_in s |}, true)
+  | LAtom t SY ALoad _ ret _ =>
       match assoc_get t (cs_ticket s) with
       | Some b =>
           if b =? ret
@@ -502,8 +502,8 @@ Definition cs_step (s : cs_state) (l : label) : cs_state * bool :=
           else (s, true)
       | None => (s, true)
       end
-  | LAtom t SY AAdd _ _ => ({| cs_ticket := cs_ticket s; cs_in := tid_del t (cs_in s) |}, true)
-  | LAtom t SF AStore _ _ => ({| cs_ticket := cs_ticket s; cs_in := tid_del t (cs_in s) |}, true)
+  | LAtom t SY AAdd _ _ _ => ({| cs_ticket := cs_ticket s; cs_in := tid_del t (cs_in s) |}, true)
+  | LAtom t SF AStore _ _ _ => ({| cs_ticket := cs_ticket s; cs_in := tid_del t (cs_in s) |}, true)
   | LSrc t _ | LSrcPanic t => (s, tid_mem t (cs_in s))
   | _ => (s, true)
   end.
@@ -517,6 +517,67 @@ Fixpoint cs_scan (s : cs_state) (ls : list label) : bool :=
 (** [ls] latest first, as accumulated by the machine *)
 Definition chk_C07_mutex (ls : list label) : bool :=
   cs_scan {| cs_ticket := []; cs_in := [] |} (rev ls).
+
+(** ** C07 (b): every use of the wrapped iterator happens-after the previous one (C11 release/acquire)
+
+    Vector clocks over the label stream, oldest label first.  The values of the atomics are those of
+    the interleaving (every load reads the latest write); what is computed here is the happens-before
+    relation that the *declared orderings* of the operations establish: a release write continues or
+    heads a release sequence of its location, a read-modify-write continues it whatever its ordering,
+    a plain store of another ordering ends it; an acquire read synchronizes with the heads of the
+    release sequence it reads from.  The wrapped iterator is one non-atomic location; an access races
+    with the previous access of another thread unless that access happens-before it. *)
+
+Definition vclock := tid -> N.
+Definition vc_zero : vclock := fun _ => 0.
+Definition vc_join (a b : vclock) : vclock := fun u => N.max (a u) (b u).
+
+Record hbst := {
+  h_vc   : tid -> vclock;             (* the clock of each thread *)
+  h_rel  : site -> vclock;            (* what an acquire read of the location synchronizes with *)
+  h_cell : option (tid * N);          (* last access of the wrapped iterator: thread and its epoch *)
+  h_ok   : bool
+}.
+
+Definition hb_init : hbst := {| h_vc := fun _ => vc_zero; h_rel := fun _ => vc_zero; h_cell := None; h_ok := true |}.
+
+Definition site_eqb (a b : site) : bool :=
+  match a, b with SC, SC | SY, SY | SF, SF => true | _, _ => false end.
+
+Definition set_vc (f : tid -> vclock) (t : tid) (v : vclock) : tid -> vclock :=
+  fun u => if Nat.eqb u t then v else f u.
+Definition set_rel (f : site -> vclock) (s : site) (v : vclock) : site -> vclock :=
+  fun x => if site_eqb x s then v else f x.
+
+Definition hb_step (h : hbst) (l : label) : hbst :=
+  match l with
+  | LCall _ => h
+  | LAtom t s ALoad _ _ o =>
+      let v := if is_acq o then vc_join (h_vc h t) (h_rel h s) else h_vc h t in
+      {| h_vc := set_vc (h_vc h) t v; h_rel := h_rel h; h_cell := h_cell h; h_ok := h_ok h |}
+  | LAtom t s AStore _ _ o =>
+      let r := if is_rel o then h_vc h t else vc_zero in
+      {| h_vc := h_vc h; h_rel := set_rel (h_rel h) s r; h_cell := h_cell h; h_ok := h_ok h |}
+  | LAtom t s AAdd _ _ o =>
+      let v := if is_acq o then vc_join (h_vc h t) (h_rel h s) else h_vc h t in
+      let r := if is_rel o then vc_join (h_rel h s) v else h_rel h s in
+      {| h_vc := set_vc (h_vc h) t v; h_rel := set_rel (h_rel h) s r; h_cell := h_cell h; h_ok := h_ok h |}
+  | LSrc t _ | LSrcPanic t =>
+      let v := h_vc h t in
+      let v' : vclock := fun u => if Nat.eqb u t then v t + 1 else v u in
+      let fine := match h_cell h with
+                  | Some (u, k) => Nat.eqb u t || (k <=? v u)
+                  | None => true
+                  end in
+      {| h_vc := set_vc (h_vc h) t v'; h_rel := h_rel h; h_cell := Some (t, v t + 1); h_ok := h_ok h && fine |}
+  end.
+
+(** [ls] latest first, as accumulated by the machine *)
+Definition hb_run (ls : list label) : hbst := fold_left hb_step (rev ls) hb_init.
+
+Definition chk_C07_hb (ls : list label) : bool := h_ok (hb_run ls).
+
+Definition chk_C07 (ls : list label) : bool := chk_C07_mutex ls && chk_C07_hb ls.
 
 (** ** no panic at all (C17 domain) *)
 Definition chk_no_panic (tr : list event) : bool := negb (has_panic tr).
@@ -559,7 +620,7 @@ Definition check_prop (n : N) (e : env) (tr : list event) (ls : list label) : bo
   | 4 => if has_panic tr then true else chk_C04 e tr
   | 5 => chk_C05 e tr
   | 6 => if has_skip tr && negb (has_panic tr) then chk_C06 e tr else true
-  | 7 => chk_C07_mutex ls
+  | 7 => chk_C07 ls
   | 8 => chk_C08 e tr
   | 10 => chk_C10 e tr
   | 11 => chk_C11 e tr
